@@ -15,7 +15,9 @@ Pool == { Rel(<<"x">>), Rel(<<".", "x">>), Rel(<<"s", "..", "x">>), Rel(<<"..", 
           Abs(<<"P", "s", ".", "..", "y">>) }
 Small(S) == {x \in SUBSET S : Cardinality(x) <= MaxIO}
 Names == <<"A", "B", "C">>
-Universe == [1..ND -> [wd : {WdP, WdPs}, ins : Small(Pool), outs : Small(Pool)]]
+(* working directories: absolute, or relative to the directory the process runs in (P) *)
+Wds == {Abs(WdP), Abs(WdPs), Abs(<<"P", "s", ".", "..", "s">>), Rel(<<"s">>), Rel(<<".">>), Rel(<<"s", "..">>)}
+Universe == [1..ND -> [wd : Wds, ins : Small(Pool), outs : Small(Pool)]]
 Chosen == IF Sample = 0 THEN Universe ELSE RandomSubset(Sample, Universe)
 Scn(u) == [kind |-> "graph", decls |-> [i \in 1..ND |-> [name |-> Names[i], wd |-> u[i].wd, ins |-> u[i].ins, outs |-> u[i].outs]]]
 ASSUME Part = "graph" => \A u \in Chosen : PrintT(ToJson(Scn(u)))
